@@ -14,6 +14,7 @@
 From Coq Require Import List Bool String NArith.
 Import ListNotations.
 Open Scope string_scope.
+Open Scope list_scope.
 
 Inductive bound := Copyable | Linear.
 
@@ -37,24 +38,28 @@ Definition av_droppable (a : argview) : bool := match a with AVType i => ti_drop
 Definition av_hugr_bound (a : argview) : bound := match a with AVType i => ti_hugr_bound i | AVConst => Linear end.
 
 (* -------- the HUGR side -------- *)
-Inductive hty : Type :=
-| HExt (qname : string) (args : list harg)       (* ht.ExtType: qualified type-def name + args *)
-| HOpaque (qname : string) (args : list harg)    (* ht.Opaque (never produced by to_hugr; an arm of requires_drop) *)
-| HSum (rows : list (list hty))                  (* ht.Sum and its subclasses Tuple / Option / UnitSum *)
-| HVar (idx : N) (b : bound)                     (* ht.Variable *)
-| HFun (ins outs : list hty)                     (* ht.FunctionType *)
-| HQubit                                         (* ht.Qubit *)
-| HAlias                                         (* ht.Alias *)
-with harg : Type :=
-| HTy (t : hty)                                  (* ht.TypeTypeArg *)
+Inductive harg (T : Type) : Type :=
+| HTy (t : T)                                    (* ht.TypeTypeArg *)
 | HNat (n : N)                                   (* ht.BoundedNatArg *)
 | HNatVar (idx : N).                             (* ht.VariableArg of a nat parameter *)
+Arguments HTy {T} t.
+Arguments HNat {T} n.
+Arguments HNatVar {T} idx.
+
+Inductive hty : Type :=
+| HExt (qname : string) (args : list (harg hty))   (* ht.ExtType: qualified type-def name + args *)
+| HOpaque (qname : string) (args : list (harg hty)) (b : bound)  (* ht.Opaque (never produced by to_hugr; an arm of requires_drop) *)
+| HSum (rows : list (list hty))                  (* ht.Sum and its subclasses Tuple / Option / UnitSum *)
+| HVar (idx : N) (b : bound)                     (* ht.Variable *)
+| HFun                                           (* ht.FunctionType; the signature is not modelled: type_bound and requires_drop ignore it *)
+| HQubit                                         (* ht.Qubit *)
+| HAlias.                                        (* ht.Alias *)
 
 Definition h_tuple (els : list hty) : hty := HSum [els].
 Definition h_option (t : hty) : hty := HSum [[]; [t]].
 
 (* argument of an opaque type as seen by its `to_hugr` function: already converted *)
-Inductive carg := CTy (h : hty) (linear : bool) | CConst (h : harg).
+Inductive carg := CTy (h : hty) (linear : bool) | CConst (h : harg hty).
 
 Inductive param := PType (must_be_copyable must_be_droppable : bool) | PConst.
 
